@@ -128,4 +128,30 @@ def run(chk, facts_dir, tier):
             chk.ok("R25.3", "%s: Display and FromStr agree on %s" % (ty, sorted(kws)), prog.bodies[frm[0]].where())
         else:
             chk.fail("R25.3", frm[0], "keyword-table:" + ty, "Display writes %s but FromStr accepts %s (expected %s): a printed value does not parse back" % (sorted(d), sorted(f), sorted(kws)), prog.bodies[frm[0]])
+    # ---------------- R25.5 the store decides on the raw values too
+    chk.rule("R25.5", "EXACT DECISION IN THE STORE: the comparisons by which the writer accepts or rejects an expected partition sequence / stream version "
+                      "(validate_partition_sequence, WriterSet::validate_event_versions) are made on the raw versions: no operand of an equality or ordering test there is "
+                      "computed with wrapping_* or saturating_* arithmetic, which is not injective at the u64 boundary (Exact(u64::MAX) + 1 wraps to 0 = 'empty')")
+    sprog = Program(facts_dir, crates=["sierradb-lib"])
+    W = "sierradb::writer_thread_pool::"
+    n5 = 0
+    for root in (W + "validate_partition_sequence", W + "WriterSet::validate_event_versions"):
+        fam = sprog.family(root)
+        if not fam:
+            raise Inconclusive("%s not found" % root)
+        for b in fam:
+            chk.analysed(b.path)
+            from ..gate import comparisons as _cmps
+            for c in _cmps(sprog, b):
+                if "debug_assert" in c.get("exp", ""):
+                    continue
+                n5 += 1
+                bad = [x[1].rsplit("::", 1)[-1] for side in (c["a"], c["b"]) for x in walk(side)
+                       if isinstance(x, tuple) and x and x[0] == "call" and x[1].rsplit("::", 1)[-1].split("_")[0] in ("wrapping", "saturating")]
+                if bad:
+                    chk.fail("R25.5", root, "lossy-operand:%s" % bad[0], "an accept/reject comparison of the version validator has an operand computed with %s: two different versions "
+                             "compare equal at the u64 boundary, so an expectation that is not satisfied is accepted" % bad[0], b, c["line"])
+                else:
+                    chk.ok("R25.5", "%s L%s: compared on raw values" % (root.rsplit("::", 1)[-1], c["line"]), b.where(c["line"]))
+    chk.floor("R25.5", n5, 4)
     return {}
